@@ -58,11 +58,12 @@ class PedRuns(BCheck):
                     lines.insert(k, "\t".join(dup))
                 main = "\n".join(lines) + "\n"
             yield dict(main_vcf=main, phase_vcfs=g["phase_vcfs"], ped=g["ped"], trios=g["trios"], tag="PS" if i % 5 else "HP",
-                       recombrate=r.choice([1.26, 1.26, 50.0, 1e5]))
+                       recombrate=r.choice([1.26, 1.26, 50.0, 1e5]), via_cli=(i % 4 == 2))
 
     def check(self, inp):
         from runtime.phase_driver import run_phase
-        res = run_phase(inp["main_vcf"], inp["phase_vcfs"], ped=inp["ped"], tag=inp["tag"], recombrate=inp["recombrate"], lists=["recomb_list"])
+        res = run_phase(inp["main_vcf"], inp["phase_vcfs"], ped=inp["ped"], tag=inp["tag"], recombrate=inp["recombrate"], lists=["recomb_list"],
+                        via_cli=inp.get("via_cli", False))    # a quarter of the runs go through the command-line parser: its defaults are the "by default" of the statement
         if res["error"]:
             return dict(expected="run_whatshap --ped succeeds (conflicting/missing variants are skipped, not fatal)", observed=res["error"],
                         traceback=res.get("traceback"), clause="abort")
